@@ -285,4 +285,16 @@ package htlcswitch
 //@   loop * havoc
 //@   site call DeleteCircuits: assert len(arg(1)) == 1 && (typeis(pkt.htlc, *lnwire.UpdateFulfillHTLC) || typeis(pkt.htlc, *lnwire.UpdateFailHTLC))
 //@   site call inKey: assert arg(0) == pkt
+//@   // the key handed to DeleteCircuits is the second inKey() of the function (the first feeds the log line)
+//@   site call inKey nth 1: assert arg(0) == pkt
 //@   ensures result == nil ==> called(DeleteCircuits) && ret(DeleteCircuits) == nil
+//@
+//@ func (p *htlcPacket) inKey
+//@   props C07 C08
+//@   ensures result.ChanID == p.incomingChanID && result.HtlcID == p.incomingHTLCID
+//@   modifies nothing
+//@
+//@ func (p *htlcPacket) outKey
+//@   props C07 C08
+//@   ensures result.ChanID == p.outgoingChanID && result.HtlcID == p.outgoingHTLCID
+//@   modifies nothing
